@@ -8,7 +8,7 @@
 const char* const PROPERTY_ID = "C04";
 const size_t PROPERTY_MAXLEN = 160;
 
-void property_init() {}
+void property_init() { vf::gen::g_huge_hosts = true; }
 
 namespace {
 template <class U>
